@@ -960,15 +960,22 @@ fn main() {
         None => true,
         Some(r) => r.get("stream").and_then(|v| v.as_str()) == Some("depth"),
     };
-    if run_depth {
+    // debugging knob: C16_ONLY=depth|sem|total runs a single stream
+    let only = std::env::var("C16_ONLY").ok();
+    let want = |s: &str| only.as_deref().map(|o| o == s).unwrap_or(true);
+    if run_depth && want("depth") {
         rep.merge(depth_sweep(&ctx));
     }
     // semantic stream first (it is the expensive one), then totality
     let per_corpus = ctx.scale(10, 25);
     let n_sem = ctx.scale(200, 4_000) as u64;
-    rep.merge(run_cases(&ctx, "sem", n_sem, |c, rng, rep| sem_case(c, rng, rep, per_corpus)));
+    if want("sem") {
+        rep.merge(run_cases(&ctx, "sem", n_sem, |c, rng, rep| sem_case(c, rng, rep, per_corpus)));
+    }
     let n_total = ctx.scale(20_000, 2_000_000) as u64;
-    rep.merge(run_cases(&ctx, "total", n_total, |c, rng, rep| total_case(c, rng, rep, thorough)));
+    if want("total") {
+        rep.merge(run_cases(&ctx, "total", n_total, |c, rng, rep| total_case(c, rng, rep, thorough)));
+    }
     simple_finish(
         &ctx,
         rep,
